@@ -40,13 +40,12 @@ def _getattr_dynamic(it, args, kwargs, node, anchor):
 
 # ---------------------------------------------------------------- ConfigService.metric_processors / span_processors
 for _nm in ("metric_processors", "span_processors", "snapshot_decorators", "resource_providers"):
-    c = contract(CS, "ConfigService." + _nm, ["C17", "C20"])
+    c = contract(CS, "ConfigService." + _nm, ["C17", "C20"], coarse=True)
     c.param("self", OBJ("ConfigService"))
     c.result = FRESH("list")
     c.logged = _nm
     c.modifies = lambda S_: []
     c.ens("list-of-plugins", lambda S_: And(S_.new.llen(S_.result) >= 0, S_.elems(S_.result, HOSTOBJ)))
-    c.coarse = True
     c.props = []
 
 # ---------------------------------------------------------------- MetricActionContext._process_metric
